@@ -1,0 +1,6 @@
+//go:build !verif
+
+package gomavlib
+
+// verifPoint is a no-op unless the library is built with the "verif" tag.
+func verifPoint(string, *Channel) {}
